@@ -243,6 +243,22 @@ namespace Pistache::Tcp
         removePeer(peer);
     }
 
+    namespace
+    {
+        // A file buffer carries the descriptor the file was opened with, and it is
+        // only closed once the file has been written completely: write entries that
+        // are dropped unwritten have to give their descriptor back
+        template <typename Entries>
+        void closeFileBuffers(Entries& entries)
+        {
+            for (auto& entry : entries)
+            {
+                if (entry.buffer.isFile())
+                    ::close(entry.buffer.fd());
+            }
+        }
+    } // namespace
+
     void Transport::removePeer(const std::shared_ptr<Peer>& peer)
     {
         int fd  = peer->fd();
@@ -255,7 +271,12 @@ namespace Pistache::Tcp
         {
             // Clean up buffers
             Guard guard(toWriteLock);
-            toWrite.erase(fd);
+            auto wqIt = toWrite.find(fd);
+            if (wqIt != std::end(toWrite))
+            {
+                closeFileBuffers(wqIt->second);
+                toWrite.erase(wqIt);
+            }
         }
 
         // Don't rely on close deleting this FD from the epoll "interest" list.
@@ -346,12 +367,15 @@ namespace Pistache::Tcp
                     // https://github.com/pistacheio/pistache/issues/501
                     else if (errno == EBADF || errno == EPIPE || errno == ECONNRESET)
                     {
+                        closeFileBuffers(wq);
                         wq.pop_front();
                         toWrite.erase(fd);
                         stop = true;
                     }
                     else
                     {
+                        if (buffer.isFile())
+                            ::close(buffer.fd());
                         cleanUp();
                         deferred.reject(Pistache::Error::system("Could not write data"));
                     }
@@ -502,7 +526,11 @@ namespace Pistache::Tcp
 
             auto fd = write->peerFd;
             if (!isPeerFd(fd))
+            {
+                if (write->buffer.isFile())
+                    ::close(write->buffer.fd());
                 continue;
+            }
 
             {
                 Guard guard(toWriteLock);
